@@ -41,7 +41,7 @@ import (
 )
 
 func init() {
-	scope := []string{"resource.", "minibus.", "electricpb.", "onoffpb.", "hailpb.", "bus-shared:", "local:", "shared:"}
+	scope := []string{"resource.", "minibus.", "electricpb.", "onoffpb.", "hailpb.", "bus-shared:", "local:", "shared:", "arg:"}
 	// "slow-writes": the held-open writes alone, every case on objects of its own.  The detector merges the
 	// clocks of everything that ever fired a timer on the same P and of everything that marshalled the same
 	// stored message (size cache), so with busy neighbours a write and a read one second apart are easily
